@@ -289,6 +289,8 @@ def f3(tier, rnd) -> List[Desc]:
               M.struct('SLast', [M.scalar('a', 8), mk()]),
               M.packet('Host', [M.typedef('s', 'SSized'), M.scalar('t', 8)])]
         out.extend(both(Desc(f'f3_{kind}', _le(pk), 'F3')))
+    pk = [M.packet('Empty', []), M.packet('Blob', [M.payload()]), M.struct('SBlob', [M.array('v', width=16)])]
+    out.extend(both(Desc('f3_empty', _le(pk), 'F3', core=True)))
     pk = [M.packet('Mod2', [M.size('_payload_', 3), M.reserved(5), M.payload(2)]),
           M.packet('Mod1t', [M.size('_payload_', 8), M.payload(1), M.scalar('t', 8)])]
     out.extend(both(Desc('f3_modifier', _le(pk), 'F3')))
@@ -327,8 +329,15 @@ def f4(tier, rnd) -> List[Desc]:
     d = [M.packet('P', [M.scalar('a', 8), M.payload()]),
          M.packet('S1', [M.scalar('x', 8)], 'P', [('a', 1)]),
          M.packet('S2', [M.scalar('y', 16)], 'P', [('a', 1)]),
-         M.packet('S3', [M.scalar('z', 8)], 'P', [('a', 2)])]
-    out.extend(both(Desc('f4_cons_size', _le(d), 'F4', python=False)))
+         M.packet('S3', [M.scalar('z', 8)], 'P', [('a', 2)]),
+         M.packet('Ext', [M.scalar('h', 8), M.payload()], 'P', [('a', 3)])]
+    out.extend(both(Desc('f4_cons_size', _le(d), 'F4', python=False, core=True)))
+    # constraint values above 2^32
+    d = [M.packet('Frame', [M.scalar('tag', 40), M.payload()]),
+         M.packet('Ack', [M.scalar('x', 8)], 'Frame', [('tag', 7)]),
+         M.packet('Ping', [M.scalar('x', 8)], 'Frame', [('tag', 0x0100000001)]),
+         M.packet('Pong', [M.scalar('y', 8)], 'Frame', [('tag', 0x0200000001)])]
+    out.extend(both(Desc('f4_wide_constraint', _le(d), 'F4', core=True)))
     # parent without payload
     d = [M.packet('P', [M.scalar('a', 8), M.scalar('b', 8)]),
          M.packet('C', [], 'P', [('a', 7)])]
@@ -402,6 +411,9 @@ def f7(tier, rnd) -> List[Desc]:
     pk = [M.packet('Nest', [M.scalar('h', 8), M.typedef('m', 'Mid'), M.typedef('i2', 'In')]),
           M.packet('NestDyLast', [M.typedef('i', 'In'), M.typedef('d', 'Dy')])]
     out.extend(both(Desc('f7_nested', _le([In, Dy, Mid] + pk), 'F7')))
+    # the same declarations with forward references (uses before declarations)
+    pk = [M.packet('Nest', [M.scalar('h', 8), M.typedef('m', 'Mid'), M.typedef('i2', 'In')])]
+    out.extend(both(Desc('f7_forward', _le(pk + [Mid, Dy, In]), 'F7', core=True)))
     for w in (8, 16, 24, 32, 40, 64):
         cf = M.custom_field(f'Cf{w}', w)
         pk = [M.packet('C', [M.typedef('c', cf.name)]),
